@@ -132,7 +132,15 @@ func (p *pump) halt() {
 	<-p.done
 }
 
+// c08Hangs counts "daemon keeps running" verdicts: each costs a full watchdog,
+// and after a handful the remaining scenarios would only repeat the finding.
+var c08Hangs int32
+
 func c08Run(r *vlib.Run, sc c08Scenario, idx int) (evaluated bool) {
+	if atomic.LoadInt32(&c08Hangs) >= 6 {
+		r.Add("scenarios_skipped_after_six_hang_verdicts", 1)
+		return false
+	}
 	label := fmt.Sprintf("%s/saturated=%v/no-writer=%v/debug=%v/race=%v", sc.Cause, sc.Saturated, sc.NoWriter, sc.Debug, sc.Race)
 	o := daemonOpts{race: sc.Race}
 	if sc.Debug {
@@ -332,7 +340,7 @@ func c08Run(r *vlib.Run, sc c08Scenario, idx int) (evaluated bool) {
 		d.cmd.Process.Signal(syscall.SIGINT)
 	}
 	t0 := time.Now()
-	exited, dump := d.waitExit(90 * time.Second)
+	exited, dump := d.waitExit(30 * time.Second)
 	if pm != nil {
 		pm.halt()
 	}
@@ -348,6 +356,7 @@ func c08Run(r *vlib.Run, sc c08Scenario, idx int) (evaluated bool) {
 	if !exited {
 		stuck, why := classifyDaemonDump(dump)
 		if stuck {
+			atomic.AddInt32(&c08Hangs, 1)
 			r.Violation(sig+":daemon-keeps-running", fmt.Sprintf("%s: daemon did not exit; %s", label, why), map[string]any{"scenario": sc, "dump": trunc(dump, 6000)})
 		} else {
 			r.Inconclusive(label + ": daemon did not exit within the watchdog but is not parked: " + why)
